@@ -6,26 +6,51 @@
 (* WithActivation(name, r) runs `before` iff the fork is not recorded or   *)
 (* r < fork[name], else `after`.  Inclusive = TRUE is the slip "r <= fork" *)
 (* (kept to show the property catches it).                                 *)
+(*                                                                         *)
+(* The recorded round is read THROUGH THE NODE'S STATE CACHE: `cache` maps *)
+(* the names it holds to a round; a lookup that misses reads the stored    *)
+(* fork and fills the cache, add_hardfork writes both, Restart (node       *)
+(* restart / cache gap) empties it while the stored forks persist.  The    *)
+(* property speaks about the STORED round whatever the cache went through. *)
+(* Aliased = TRUE is the slip "entries filled by a lookup share one        *)
+(* recycled object": a later miss-fill overwrites the earlier filled       *)
+(* entries (kept to show the property catches it: needs two forks at       *)
+(* different rounds, a restart, two lookups and a third).                  *)
 (***************************************************************************)
 EXTENDS Integers, FiniteSets
-CONSTANTS Names, Rounds, NoFork, Inclusive, MaxOps
-VARIABLES fork, last, nops
-vars == <<fork, last, nops>>
+CONSTANTS Names, Rounds, NoFork, Inclusive, MaxOps, Aliased
+VARIABLES fork, cache, pooled, last, nops
+vars == <<fork, cache, pooled, last, nops>>
 
-Branch(f, name, r) == IF f[name] = NoFork THEN "before"
-                      ELSE IF (IF Inclusive THEN r <= f[name] ELSE r < f[name]) THEN "before" ELSE "after"
+BranchOf(v, r) == IF v = NoFork THEN "before"
+                  ELSE IF (IF Inclusive THEN r <= v ELSE r < v) THEN "before" ELSE "after"
+Branch(f, name, r) == BranchOf(f[name], r)
+Lookup(n) == IF n \in DOMAIN cache THEN cache[n] ELSE fork[n]
+With(c, n, v) == [m \in DOMAIN c \cup {n} |-> IF m = n THEN v ELSE c[m]]
 
-Init == fork = [n \in Names |-> NoFork] /\ last = [op |-> "none"] /\ nops = 0
+Init == fork = [n \in Names |-> NoFork] /\ cache = <<>> /\ pooled = {} /\ last = [op |-> "none"] /\ nops = 0
 Record(n, r, owner) ==
   /\ nops < MaxOps /\ nops' = nops + 1
   /\ fork' = IF owner THEN [fork EXCEPT ![n] = r] ELSE fork
+  /\ cache' = IF owner THEN With(cache, n, r) ELSE cache          \* the insert goes through the cache
+  /\ pooled' = IF owner THEN pooled \ {n} ELSE pooled
   /\ last' = [op |-> "record", name |-> n, round |-> r, ok |-> owner]
 Probe(n, r) ==
   /\ nops < MaxOps /\ nops' = nops + 1 /\ UNCHANGED fork
-  /\ last' = [op |-> "probe", name |-> n, round |-> r, branch |-> Branch(fork, n, r)]
+  /\ IF n \in DOMAIN cache
+       THEN UNCHANGED <<cache, pooled>>
+       ELSE /\ cache' = [m \in DOMAIN cache \cup {n} |->
+                          IF m = n \/ (Aliased /\ m \in pooled) THEN fork[n] ELSE cache[m]]
+            /\ pooled' = pooled \cup {n}
+  /\ last' = [op |-> "probe", name |-> n, round |-> r, branch |-> BranchOf(Lookup(n), r)]
+Restart ==
+  /\ nops < MaxOps /\ nops' = nops + 1 /\ UNCHANGED fork
+  /\ cache' = <<>> /\ pooled' = {}
+  /\ last' = [op |-> "restart"]
 A_Record == \E n \in Names, r \in Rounds, o \in BOOLEAN : Record(n, r, o)
 A_Probe == \E n \in Names, r \in Rounds : Probe(n, r)
-Next == A_Record \/ A_Probe
+A_Restart == Restart
+Next == A_Record \/ A_Probe \/ A_Restart
 Spec == Init /\ [][Next]_vars
 
 IsProbe == last.op = "probe"
@@ -33,4 +58,6 @@ C43_MissingFork == (IsProbe /\ fork[last.name] = NoFork) => last.branch = "befor
 C43_BeforeFork  == (IsProbe /\ fork[last.name] # NoFork /\ last.round < fork[last.name]) => last.branch = "before"
 C43_AfterFork   == (IsProbe /\ fork[last.name] # NoFork /\ last.round >= fork[last.name]) => last.branch = "after"
 C43_OnlyOwnerRecords == [][\A n \in Names : fork'[n] # fork[n] => (last'.op = "record" /\ last'.ok /\ last'.name = n)]_vars
+(* what the cache holds is what is stored *)
+CacheCoherent == \A n \in DOMAIN cache : cache[n] = fork[n]
 =============================================================================
